@@ -6,6 +6,8 @@
 //   -DAPP=1 bfs_push 2 bfs_pull 3 sssp_push 4 sssp_pull 5 cc_push 6 cc_pull
 #include "grwriter.h"
 #include <algorithm>
+#include <functional>
+#include <sys/stat.h>
 #include <map>
 #include <numeric>
 #include <queue>
@@ -48,14 +50,16 @@ int main() {
   int policy = (int)vsim_param("policy", 0, 10);
   int async = (int)vsim_param("async", 0, 1);
   static const char* appn[] = {"", "bfs_push", "bfs_pull", "sssp_push", "sssp_pull", "cc_push", "cc_pull"};
-  vsim_note("component", "dist-app=%s policy=%s hosts=%d %s", appn[APP], pols[policy], nhosts, async ? "async" : "sync");
+  vsim_note("component", "dist-app=%s %s", appn[APP], async ? "async" : "sync");
   vsim_enable_fault(VF_MSG_DELAY, 0.05, 0.6);
   vsim_enable_fault(VF_IPROBE_MISS, 0.05, 0.5);
   vsim_enable_fault(VF_TEST_LAZY, 0.05, 0.5);
   vsim_enable_fault(VF_HOST_STALL, 0.0002, 0.004);
   vsim_set_budget(12000000);
   // ---- input ----
-  gr::Model m = gr::generate(tier() ? 120 : 40, false);
+  int maxn = tier() ? 120 : 40;
+  if (policy >= 6) maxn = nhosts >= 3 ? (tier() ? 30 : 14) : (tier() ? 60 : 24);   // the streaming policies exchange state per node: keep their runs inside the real-time watchdog
+  gr::Model m = gr::generate(maxn, false);
   if (m.n == 0) { m.n = 1; m.end.assign(1, 0); }
   bool weighted = APP == 3 || APP == 4, symmetric = APP == 5 || APP == 6;
   std::vector<gr::Edge> es = m.edges;
